@@ -1,4 +1,173 @@
-use crate::core::{Ctx, Outcome};
-use serde_json::Value;
-pub fn run(_ctx: &Ctx) -> Outcome { unimplemented!() }
-pub fn replay(_ctx: &Ctx, _r: &Value) -> i32 { 2 }
+//! C03 — verified pieces are reassembled into exactly the described files.
+//! E-ENUM over every (piece length, file-length list) geometry within the bound; the real
+//! `Metainfo` parses a harness-built document, the real `Extractor::run()` works on real piece files
+//! in a per-thread scratch directory; oracle = slicing the concatenated content.
+
+use crate::core::{self, Ctx, Outcome};
+use crate::fixture::Torrent;
+use crate::httpfake;
+use rdest::verif::{Extractor, ExtractorCmd};
+use serde_json::{json, Value};
+use std::path::Path;
+
+#[derive(Clone, Debug)]
+pub struct Geo {
+    pub p: usize,
+    pub files: Vec<usize>,
+    pub single: bool,
+}
+
+pub fn geometries(ps: &[usize], max_files: usize) -> Vec<Geo> {
+    let mut out = vec![];
+    for &p in ps {
+        let max_len = 2 * p + 1;
+        let max_total = 3 * p + 2;
+        fn rec(p: usize, max_len: usize, left: usize, max_files: usize, cur: &mut Vec<usize>, out: &mut Vec<Geo>) {
+            if !cur.is_empty() {
+                out.push(Geo { p, files: cur.clone(), single: false });
+                if cur.len() == 1 {
+                    out.push(Geo { p, files: cur.clone(), single: true });
+                }
+            }
+            if cur.len() == max_files {
+                return;
+            }
+            for l in 0..=max_len.min(left) {
+                cur.push(l);
+                rec(p, max_len, left - l, max_files, cur, out);
+                cur.pop();
+            }
+        }
+        rec(p, max_len, max_total, max_files, &mut vec![], &mut out);
+    }
+    out
+}
+
+pub fn run_extractor(rt: &tokio::runtime::Runtime, t: &Torrent) -> Result<ExtractorCmd, String> {
+    let meta = t.meta.clone();
+    core::catch(|| {
+        rt.block_on(async move {
+            let (tx, mut rx) = tokio::sync::mpsc::channel(4);
+            let mut ex = Extractor::new(meta, tx);
+            ex.run().await;
+            rx.try_recv().expect("extractor sent nothing")
+        })
+    })
+}
+
+pub fn check_geo(rt: &tokio::runtime::Runtime, dir: &Path, g: &Geo) -> Option<(&'static str, String)> {
+    core::wipe_dir(dir);
+    let names: Vec<String> = (0..g.files.len()).map(|i| if i % 2 == 0 { format!("f{}", i) } else { format!("sub/f{}", i) }).collect();
+    let files: Vec<(&str, usize)> = names.iter().map(|n| n.as_str()).zip(g.files.iter().cloned()).collect();
+    let t = Torrent::new("T", g.p, &files, g.single);
+    let total = t.total();
+    // the statement's premise: the piece count matches the total length
+    assert_eq!(t.meta.pieces_num(), (total + g.p - 1) / g.p);
+
+    // per-piece lengths partition the content
+    let lens = match core::catch(|| (0..t.meta.pieces_num()).map(|i| t.meta.piece_length(i)).collect::<Vec<_>>()) {
+        Ok(l) => l,
+        Err(p) => return Some(("piece_length-panic", format!("{:?}: {}", g, p))),
+    };
+    if lens.iter().sum::<usize>() != total || lens.iter().any(|l| *l > g.p || *l == 0) || lens.iter().zip(t.pieces.iter()).any(|(l, p)| *l != p.len()) {
+        return Some(("piece-lengths-do-not-partition", format!("{:?}: piece_length = {:?}, total {}", g, lens, total)));
+    }
+
+    for i in 0..t.pieces.len() {
+        t.store_piece(dir, i);
+    }
+    let res = match run_extractor(rt, &t) {
+        Ok(r) => r,
+        Err(p) => return Some(("extractor-panic", format!("{:?}: {}", g, p))),
+    };
+    if let ExtractorCmd::Fail(e) = &res {
+        return Some(("extraction-fails", format!("{:?}: extractor reported {}", g, e)));
+    }
+    // files: position of each file in the content decides the class of a mismatch
+    let mut pos = 0;
+    for ((rel, want), len) in t.expected_outputs().iter().zip(g.files.iter()) {
+        let got = std::fs::read(dir.join(rel));
+        let start_off = pos % g.p;
+        let inside_one_piece = *len > 0 && pos / g.p == (pos + len - 1) / g.p;
+        pos += len;
+        match got {
+            Ok(bytes) if &bytes == want => {}
+            other => {
+                let class = if *len == 0 && start_off != 0 {
+                    "zero-length-file-at-nonzero-offset"
+                } else if inside_one_piece && start_off != 0 {
+                    "file-inside-one-piece-at-nonzero-offset"
+                } else {
+                    "file-content-differs"
+                };
+                let got_desc = match other {
+                    Ok(b) => format!("{} bytes {}", b.len(), core::hex(&b[..b.len().min(16)])),
+                    Err(e) => format!("unreadable: {}", e),
+                };
+                return Some((class, format!("{:?}: file {} should be {} bytes {} but is {}", g, rel.display(), want.len(), core::hex(&want[..want.len().min(16)]), got_desc)));
+            }
+        }
+    }
+    None
+}
+
+pub fn run(ctx: &Ctx) -> Outcome {
+    let ps: Vec<usize> = ctx.tier.pick(vec![1, 2, 3, 4], vec![1, 2, 3, 4, 5, 7, 8]);
+    let geos = geometries(&ps, ctx.tier.pick(3, 4));
+    let res = core::par_map(
+        &geos,
+        |w| {
+            core::set_quiet_panics(true);
+            (httpfake::runtime(), core::private_cwd("c03", &format!("w{}", w)))
+        },
+        |(rt, dir), _, g| check_geo(rt, dir, g),
+    );
+    let mut multi_in_piece = 0u64;
+    for (g, r) in geos.iter().zip(res.iter()) {
+        // non-trivial: some file starts strictly inside a piece
+        let mut pos = 0;
+        let mut nt = false;
+        for l in &g.files {
+            if pos % g.p != 0 {
+                nt = true;
+            }
+            pos += l;
+        }
+        if nt {
+            multi_in_piece += 1;
+        }
+        if let Some((class, summary)) = r {
+            ctx.violation(class, summary.clone(), json!({"p": g.p, "files": g.files, "single": g.single}));
+        }
+    }
+    let mut o = Outcome::new("exploration");
+    o.set("evaluations", json!(geos.len()));
+    o.set("distinct_nontrivial", json!(multi_in_piece));
+    o.set("rule", json!(format!("every piece length p in {:?} x every list of 1..={} file lengths each in 0..=2p+1 with total <= 3p+2 (single-file form and files-list form for one file); all geometries distinct; non-trivial = at least one file starts strictly inside a piece", ps, ctx.tier.pick(3, 4))));
+    let picks = ctx.seeded_pick(geos.len(), 5);
+    o.set("samples", Value::Array(picks.iter().map(|i| json!({"p": geos[*i].p, "files": geos[*i].files, "single": geos[*i].single})).collect()));
+    o.set("exhaustive", json!(true));
+    o.assume("content is position-coded (distinct byte per offset within the bound), so misplaced bytes are visible; nothing is claimed beyond the stated geometry bound");
+    o
+}
+
+pub fn replay(_ctx: &Ctx, r: &Value) -> i32 {
+    let g = Geo {
+        p: r["p"].as_u64().unwrap() as usize,
+        files: r["files"].as_array().unwrap().iter().map(|x| x.as_u64().unwrap() as usize).collect(),
+        single: r["single"].as_bool().unwrap(),
+    };
+    let rt = httpfake::runtime();
+    let dir = core::private_cwd("c03", "replay");
+    println!("geometry {:?}", g);
+    match check_geo(&rt, &dir, &g) {
+        Some((class, s)) => {
+            println!("VIOLATION property=C03 replay=<this file>\n  class={} {}", class, s);
+            1
+        }
+        None => {
+            println!("holds for this geometry");
+            0
+        }
+    }
+}
